@@ -225,7 +225,9 @@ pub mod recycle {
         }
     }
 
-    #[cfg(not(kani))]
+    // (only one global allocator per crate: when C15's limit allocator is compiled in as well - the
+    // all_props convenience build - this one is left out; the C08 check enables p_c08 only)
+    #[cfg(all(not(kani), not(feature = "p_c15")))]
     mod native {
         use std::alloc::{GlobalAlloc, Layout, System};
         pub struct Recycling;
